@@ -863,6 +863,19 @@ func (il *inliner) inlineCall(pk *packages.Package, f *ast.File, file string, st
 		return false
 	}
 
+	// ---- expression form: a body that is a single `return E` with side-effect-free arguments is substituted in
+	// place (a predicate cut out of a condition comes back as the condition it was)
+	if len(di.decl.Body.List) == 1 && nres == 1 && variadicLit < 0 && !sig.Variadic() {
+		if rs, ok := di.decl.Body.List[0].(*ast.ReturnStmt); ok && len(rs.Results) == 1 {
+			if txt, ok := il.exprForm(pk, call, di, sig, rs.Results[0], argTexts, paramVars, bodyEdits, bodyStart, typeText, nameable); ok {
+				il.seq++
+				tf := pk.Fset.File(f.Pos())
+				il.fe(file).edits = append(il.fe(file).edits, textEdit{tf.Offset(call.Pos()), tf.Offset(call.End()), txt, il.seq})
+				return true
+			}
+		}
+	}
+
 	// ---- the statement the call is hoisted in front of
 	ins := hoistPoint(stack, call, info)
 	if ins == nil {
@@ -1207,6 +1220,114 @@ func (il *inliner) inlineCall(pk *packages.Package, f *ast.File, file string, st
 		fe.edits = append(fe.edits, textEdit{e, e, ins.close, g})
 	}
 	return true
+}
+
+// exprForm builds the replacement of call by the returned expression e of the callee with the parameters
+// replaced by the (parenthesised) argument texts.
+func (il *inliner) exprForm(pk *packages.Package, call *ast.CallExpr, di *declInfo, sig *types.Signature, e ast.Expr, argTexts []string, paramVars []*types.Var, bodyEdits []textEdit, bodyStart int, typeText func(types.Type) string, nameable func(types.Type) bool) (string, bool) {
+	info := pk.TypesInfo
+	// arguments (and the receiver) must be free of effects: they may be evaluated more or less often
+	simple := func(x ast.Expr) bool {
+		okk := true
+		ast.Inspect(x, func(n ast.Node) bool {
+			switch y := n.(type) {
+			case *ast.CallExpr, *ast.FuncLit, *ast.IndexExpr, *ast.SliceExpr, *ast.TypeAssertExpr, *ast.CompositeLit:
+				okk = false
+			case *ast.UnaryExpr:
+				if y.Op == token.ARROW {
+					okk = false
+				}
+			case *ast.BinaryExpr:
+				if y.Op == token.QUO || y.Op == token.REM {
+					okk = false
+				}
+			}
+			return okk
+		})
+		return okk
+	}
+	if sel, isSel := call.Fun.(*ast.SelectorExpr); isSel && sig.Recv() != nil {
+		if !simple(sel.X) {
+			return "", false
+		}
+	}
+	for _, a := range call.Args {
+		if !simple(a) {
+			return "", false
+		}
+	}
+	hasLit := false
+	ast.Inspect(e, func(n ast.Node) bool {
+		if _, ok := n.(*ast.FuncLit); ok {
+			hasLit = true
+		}
+		return !hasLit
+	})
+	if hasLit {
+		return "", false
+	}
+	cinfo := di.pk.TypesInfo
+	ctf := di.pk.Fset.File(di.decl.Pos())
+	es, ee := ctf.Offset(e.Pos())-bodyStart, ctf.Offset(e.End())-bodyStart
+	var edits []textEdit
+	for _, be := range bodyEdits {
+		if be.off >= es && be.end <= ee {
+			edits = append(edits, be)
+		}
+	}
+	idx := map[types.Object]int{}
+	for i, pvv := range paramVars {
+		idx[pvv] = i
+	}
+	okk := true
+	ast.Inspect(e, func(n ast.Node) bool {
+		id, ok := n.(*ast.Ident)
+		if !ok {
+			return true
+		}
+		o := cinfo.Uses[id]
+		if o == nil {
+			return true
+		}
+		if i, isParam := idx[o]; isParam {
+			if i >= len(argTexts) {
+				okk = false
+				return false
+			}
+			edits = append(edits, textEdit{ctf.Offset(id.Pos()) - bodyStart, ctf.Offset(id.End()) - bodyStart, "(" + argTexts[i] + ")", 0})
+		}
+		return true
+	})
+	if !okk {
+		return "", false
+	}
+	src := il.source(ctf.Name())
+	txt := append([]byte(nil), src[bodyStart+es:bodyStart+ee]...)
+	sort.SliceStable(edits, func(a, b int) bool { return edits[a].off > edits[b].off })
+	last := len(txt) + 1 + es
+	for _, ed := range edits {
+		if ed.end > last {
+			return "", false
+		}
+		txt = append(txt[:ed.off-es], append([]byte(ed.text), txt[ed.end-es:]...)...)
+		last = ed.off
+	}
+	// keep the static type of the call
+	rt := sig.Results().At(0).Type()
+	et := cinfo.TypeOf(e)
+	if et != nil && types.Identical(et, rt) {
+		if tv, ok := cinfo.Types[e]; !ok || tv.Value == nil { // not a constant (whose default type might differ)
+			return "(" + string(txt) + ")", true
+		}
+	}
+	if !nameable(rt) {
+		return "", false
+	}
+	if _, isIface := rt.Underlying().(*types.Interface); isIface {
+		return "", false
+	}
+	_ = info
+	return "(" + typeText(rt) + ")(" + string(txt) + ")", true
 }
 
 // contInfo: the test that consumes the results of an inlined call (see inlineCall).
